@@ -88,6 +88,7 @@ type imp struct {
 // the property statements against the code; every line names the clause it serves).
 var propImports = map[string][]imp{
 	"C01": {
+		{"C01.16/cooked-bus-header", "C08", "a cooked BUS socket sends the body alone: a stale header of any length is discarded, not put on the wire in front of it", []string{"C08.2/bus-receive|bus.SendMsg"}},
 		{"C01.14/delivered-private", "C17", "a message handed to one receiver is not the buffer handed to another: what one does with its copy cannot change what the other reads", []string{"C17.3/shared-queue", "C17.6/unique-sites"}},
 		{"C01.15/ownership", "C17", "a message on its way is not released while something still holds and re-sends it (a recycled buffer arrives with another message's bytes)", []string{"C17.1/E5"}},
 		{"C01.13/request-id-marker", "C03", "every request id carries the bit that ends the backtrace: without it the REP side takes payload words for routing data and the application sees a truncated body", []string{"C03.12/id-end-marker"}},
@@ -101,22 +102,26 @@ var propImports = map[string][]imp{
 		{"C02.10/lifecycle", "C13", "the protocol is told of every arrival and departure exactly once: a second peer is admitted once the first has gone", []string{"C13.1/addPipe", "C13.2/detached", "C13.3/once-each"}},
 	},
 	"C03": {
+		{"C03.14/ownership", "C17", "the request REQ keeps is not released under it (with retries disabled too): a recycled buffer turns the reply being delivered into another message", []string{"C17.1/E5|protocol/req"}},
 		{"C03.13/api-copies", "C01", "the reply handed to the application is a private copy: it is not overwritten by a later message", []string{"C01.8/api-copies"}},
 		{"C03.10/request-state", "C04", "the id of an abandoned request leaves the id table wherever the request is given up (a stale reply must find nothing)", []string{"C04.6/pipe-loss", "C04.7/request-state-transitions"}},
 		{"C03.11/E3", "C11", "request state is accessed under the socket lock", []string{"C11.1/E3|protocol/req", "C11.1/E3|protocol/xreq"}},
 	},
 	"C04": {
+		{"C04.20/api-copies", "C01", "the request kept for retransmission is a private copy of the bytes the caller passed: the re-send is byte-identical whatever the caller does with its buffer", []string{"C01.8/api-copies"}},
 		{"C04.19/lifecycle", "C13", "REQ is told of every departure of a pipe it was told of: only then is the request that rode it re-sent", []string{"C13.1/addPipe", "C13.2/detached", "C13.3/once-each"}},
 		{"C04.16/send-contract", "C17", "the request kept for retransmission is not released by a failed transmission (the re-send must be byte-identical)", []string{"C17.5/send-contract|transport"}},
 		{"C04.14/id-table", "C03", "only the request path registers and clears ids", []string{"C03.2/id-table-writers"}},
 		{"C04.15/E3", "C11", "request state is accessed under the socket lock", []string{"C11.1/E3|protocol/req"}},
 	},
 	"C05": {
+		{"C05.16/lifecycle", "C13", "the protocol is told when a connection has gone (replies addressed to it are then discarded instead of blocking)", []string{"C13.2/detached", "C13.3/once-each"}},
 		{"C05.15/request-id-marker", "C03", "the id word that ends the backtrace is recognisable", []string{"C03.12/id-end-marker"}},
 		{"C05.13/E3", "C11", "routing state is accessed under the socket lock", []string{"C11.1/E3|protocol/rep", "C11.1/E3|protocol/respondent", "C11.1/E3|protocol/xrep", "C11.1/E3|protocol/xrespondent"}},
 		{"C05.14/ownership", "C17", "the saved route and the reply are not aliased with recycled buffers", []string{"C17.1/E5|protocol/rep", "C17.1/E5|protocol/respondent", "C17.1/E5|protocol/xrep", "C17.1/E5|protocol/xrespondent"}},
 	},
 	"C06": {
+		{"C06.14/api-copies", "C01", "a delivered body is a private copy: it does not change when later messages arrive", []string{"C01.8/api-copies"}},
 		{"C06.13/one-connection-per-dialer", "C14", "a dialer re-establishes one connection per loss: a second connection to the same publisher delivers every message twice", []string{"C14.5/redial-after-loss", "C14.2/backoff"}},
 		{"C06.12/send-contract", "C17", "a message shared by all subscriber pipes is released once per pipe, also when a write fails", []string{"C17.5/send-contract|transport"}},
 		{"C06.10/queue-sizing", "C19", "a context's queue and the length recorded for it agree, and a new context starts from the socket's: unsubscribe rebuilds the queue from the recorded length and re-queues under the lock", []string{"C19.4/inheritance|protocol/sub", "C19.6/queue-length-agrees|protocol/sub", "C19.6/queue-length-agrees|protocol/xsub", "C19.6/queue-length-agrees|protocol/xpub"}},
@@ -128,12 +133,15 @@ var propImports = map[string][]imp{
 		{"C07.16/E3", "C11", "survey state is accessed under the socket lock", []string{"C11.1/E3|protocol/surveyor", "C11.1/E3|protocol/xsurveyor", "C11.1/E3|protocol/respondent", "C11.1/E3|protocol/xrespondent"}},
 	},
 	"C08": {
+		{"C08.14/inproc-copies", "C01", "each member gets a message of its own over inproc too (the hop count one member bumps is not the other's)", []string{"C01.7/inproc"}},
+		{"C08.15/queue-read-at-use", "C19", "a receiver delivers into the receive queue in force now, not the one it saw when the peer connected", []string{"C19.9/options-read-at-use|protocol/xstar", "C19.9/options-read-at-use|protocol/xbus"}},
 		{"C08.13/one-connection-per-dialer", "C14", "a dialer that failed and was reported as failed does not keep connecting in the background: a second pipe to the same member delivers every message twice", []string{"C14.2/backoff", "C14.5/redial-after-loss"}},
 		{"C08.12/queue-sizing", "C19", "the per-peer send queue has the configured length (messages fitting it are not dropped)", []string{"C19.6/queue-length-agrees|protocol/xbus", "C19.6/queue-length-agrees|protocol/xstar"}},
 		{"C08.10/id-nonzero", "C13", "BUS uses id 0 for 'no source pipe': a pipe must never get it", []string{"C13.8/allocator"}},
 		{"C08.11/E3", "C11", "peer tables are accessed under the socket lock", []string{"C11.1/E3|protocol/xbus", "C11.1/E3|protocol/xstar"}},
 	},
 	"C09": {
+		{"C09.13/request-id-marker", "C03", "every request id ends the backtrace: devices stop copying routing words at it", []string{"C03.12/id-end-marker"}},
 		{"C09.12/transport-leaves-message-intact", "C17", "sending a message does not rewrite it: a message shared by reference count (forwarded, broadcast or kept for re-sending) goes out identical on every connection", []string{"C17.4/no-write-through"}},
 		{"C09.11/forwarded-message-intact", "C17", "a message handed back to the forwarder after a failed send is unchanged (a retry routes by the same header)", []string{"C17.5/send-contract|protocol/x", "C17.1/E5|protocol/xrep", "C17.1/E5|protocol/xreq", "C17.1/E5|protocol/xrespondent", "C17.1/E5|protocol/xsurveyor"}},
 		{"C09.10/ttl-read-at-use", "C19", "the hop limit applied to a message is the one in force when the message arrived", []string{"C19.9/options-read-at-use|.ttl"}},
@@ -147,6 +155,7 @@ var propImports = map[string][]imp{
 		{"C11.9/ownership", "C17", "concurrent users of one socket never end up holding the same message or buffer", []string{"C17.1/E5", "C17.5/send-contract", "C17.7/fresh-backing-per-message"}},
 	},
 	"C12": {
+		{"C12.15/fail-no-peers", "C18", "losing the last peer fails the blocked senders once and leaves the socket usable for the next peer", []string{"C18.4/fail-no-peers"}},
 		{"C12.13/refused-device", "C19", "a Device call that is refused has started nothing", []string{"C19.7/refused-device-has-no-effect"}},
 		{"C12.14/close-affects-only-itself", "C10", "closing an endpoint that failed to start does not disturb the one that owns the address", []string{"C10.11/close-affects-only-itself"}},
 		{"C12.12/lock-order", "C11", "no two paths take the same two locks in opposite orders (a deadlock wedges every later call)", []string{"C11.2/E2"}},
@@ -158,11 +167,14 @@ var propImports = map[string][]imp{
 		{"C13.11/handshake", "C16", "a connection that fails its handshake yields no pipe and does not end the accept loop", []string{"C16.6/handshake-validation"}},
 	},
 	"C14": {
+		{"C14.11/dial-returns", "C16", "every handshake outcome is reported to the Dial that waits for it: otherwise the dialer never learns of the failure and never retries", []string{"C16.5/handshaker|worker/"}},
+		{"C14.12/dialer-list", "C13", "the socket's dialer list holds exactly the dialers created on it: Close closes those, and a dialer dropped from the list keeps dialling after Close", []string{"C13.14/core-state-writers|writers-of-dialers"}},
 		{"C14.10/wake-ups", "C10", "a dialer parked in the transport until its listener appears is woken when it does (every waiter is woken: the condition variable is shared by all addresses)", []string{"C10.1/cond|transport/inproc"}},
 		{"C14.9/attach", "C13", "a pipe closed while attaching never reaches the protocol, and a refused one is closed through the core: otherwise the protocol keeps a dead pipe, every later connection is refused and traffic never resumes", []string{"C13.1/addPipe"}},
 		{"C14.7/registration", "C10", "a dialer is registered with its socket, or refused, atomically with the socket's closed state: a dialer added to a closed socket keeps dialling for ever", []string{"C10.3/socket-close|NewDialer", "C10.10/E3b|internal/core.(*socket).NewDialer", "C10.10/E3b|internal/core.(*dialer)"}},
 	},
 	"C16": {
+		{"C16.19/hop-word", "C09", "the hop count is the whole header word: a peer cannot smuggle a huge count past the limit in its upper bytes", []string{"C09.1/hop-normal-form"}},
 		{"C16.18/queue-room", "C19", "a receiver that re-queues under the socket lock always has room: otherwise one message from a peer blocks it with the lock held and the whole socket stalls", []string{"C19.2/E10c", "C19.2/ranges"}},
 		{"C16.16/no-cross-peer-pollution", "C17", "nothing one peer sends can end up in state kept for another peer (saved routes are private copies)", []string{"C17.1/E5|protocol/"}},
 		{"C16.13/channel-typestate", "C11", "no send can reach a channel that a concurrent close may already have closed (a send on a closed channel panics the process): responses for a survey being retired, messages for a pipe being removed", []string{"C11.4/E10b", "C11.4/E10a"}},
@@ -170,13 +182,16 @@ var propImports = map[string][]imp{
 		{"C16.14/websocket-handshake", "C15", "a websocket peer whose sub-protocol is not exactly the expected name is refused", []string{"C15.5/websocket"}},
 	},
 	"C15": {
+		{"C15.11/handshake-results", "C13", "each completed handshake is handed out once and then forgotten: a failed one left at the head of the queue is reported for every later, conformant peer", []string{"C13.13/queue-pops|transport."}},
 		{"C15.10/pool", "C01", "a message obtained for an announced length has room for it: the receive path slices the pooled buffer to that length", []string{"C01.1/pool"}},
 		{"C15.9/send-contract", "C17", "the frame is written from the message's own buffers: they are not released before or regardless of the write", []string{"C17.5/send-contract|transport", "C17.1/E5|transport"}},
 	},
 	"C17": {
+		{"C17.9/inproc-copies", "C01", "the in-process transport hands the receiver a message of its own, header or not", []string{"C01.7/inproc"}},
 		{"C17.8/api-copies", "C01", "Recv hands out a copy of the body whatever its size; the message goes back to the pool", []string{"C01.8/api-copies"}},
 	},
 	"C18": {
+		{"C18.13/queue-swap-wakes", "C19", "a receiver blocked on a queue that is replaced is woken to look at the new one (otherwise it times out with a message waiting, or waits for ever)", []string{"C19.8/queue-swap-wakes"}},
 		{"C18.12/timer-fields", "C11", "deadline timers and deadline values are read and written under the socket lock: a timer stopped or replaced outside it is the wrong call's timer", []string{"C11.1/E3|Timer", "C11.1/E3|Expire", "C11.1/E3|Deadline"}},
 		{"C18.11/no-wait-under-lock", "C12", "no blocking wait while holding a socket lock: every other call on the socket would ignore its own deadline for as long", []string{"C12.2/E4"}},
 		{"C18.10/inheritance", "C19", "a new context starts with the deadlines configured on the socket (send from send, receive from receive)", []string{"C19.4/inheritance"}},
